@@ -318,7 +318,7 @@ fn spec_for(id: &str, tier: Tier) -> Spec {
                 observers: true,
                 rule: "for every reachable state (BFS to fixpoint over the fault-free transitions) and every call of the alphabet incl. observers, walk_dir and read_to_string: one fault-free run counting the n calls made into wrapped filesystems, then one run per fault position k = 1..n (thorough: also every pair k1 < k2 for composites) with exactly that call returning an I/O error; a (state-class, call, outcome-class) triple of the fault-free run counts as non-trivial if the call changed the state or was refused for a reason other than a missing parent",
                 assumptions: vec![
-                    "faults are injected at the public FileSystem trait boundary of every filesystem of the stack (Fault wrapper); faults inside returned read/write handles are not injected",
+                    "faults are injected at the public FileSystem trait boundary of every filesystem of the stack (Wrap) and in every read / write / seek / flush call on the handles those filesystems return (each such call is one more position k)",
                     "listing order owned by the Sorted wrapper, so 'the k-th call' is deterministic",
                     "finite alphabet as for C01",
                 ],
